@@ -156,6 +156,12 @@ def run(shard: dict, ctx) -> None:
         if total < 5000:
             specs.append(("bytewise",))
         specs += [splits.random_spec(rng, total, False) for _ in range(3)]
+        specs.append(splits.limit_spec(rng, total))
+        # cuts near the limits counted from the end of the noise as well
+        for lim in (2047, 8192):
+            c = len(noise) + lim + rng.randint(-40, 90)
+            if 0 < c < total:
+                specs.append(("cuts", [c]))
         run_case(reader_kind, cfg, noise, kind, suffix, sent, specs, ctx)
         if i < 2:
             ctx.sample({"reader": reader_kind, "cfg": list(cfg) if cfg else None, "noise_kind": kind, "noise": noise[:80], "n_clean": len(sent)})
